@@ -204,6 +204,11 @@ def key_construct(label, inputs, v):
     return None
 
 
+_FALSE_KW = ({"ra": False}, {"radians": False},
+             {"ra": False, "radians": False}, {"ra": 0}, {"radians": 0})
+_N = {"kw": 0}
+
+
 def case_decimal(mon, x):
     from pymeeus.Angle import Angle
     X = ex.fr(x)
@@ -219,6 +224,14 @@ def case_decimal(mon, x):
     expect_construct(mon, "Angle((x,))", x, lambda: Angle((x,)), X, ex.sgn(x))
     b = Angle(77.0)
     expect_construct(mon, "set(x)", x, lambda: (b.set(x), b)[1], X, ex.sgn(x))
+    # the keywords spelled out with their default (false) values
+    kw = _FALSE_KW[_N["kw"] % len(_FALSE_KW)]
+    _N["kw"] += 1
+    expect_construct(mon, "Angle(x, **%r)" % (kw,), x,
+                     lambda: Angle(x, **kw), X, ex.sgn(x))
+    c = Angle(-33.0)
+    expect_construct(mon, "set(x, **%r)" % (kw,), x,
+                     lambda: (c.set(x, **kw), c)[1], X, ex.sgn(x))
     if a is not None:
         expect_construct(mon, "Angle(Angle(x))", x, lambda: Angle(a),
                          ex.fr(a()), ex.sgn(a()))
@@ -239,6 +252,8 @@ def case_radians(mon, x):
     lst = [x]
     expect_construct(mon, "Angle([x], radians=True)", x,
                      lambda: Angle(lst, radians=True), X, ex.sgn(x))
+    expect_construct(mon, "Angle(x, radians=True, ra=False)", x,
+                     lambda: Angle(x, radians=True, ra=False), X, ex.sgn(x))
 
 
 def case_ra(mon, x):
@@ -252,6 +267,8 @@ def case_ra(mon, x):
     b = Angle(12.0)
     expect_construct(mon, "set_ra(x)", x, lambda: (b.set_ra(x), b)[1], X,
                      ex.sgn(x))
+    expect_construct(mon, "Angle(x, ra=True, radians=False)", x,
+                     lambda: Angle(x, ra=True, radians=False), X, ex.sgn(x))
 
 
 def dms_exact(pieces):
